@@ -239,7 +239,7 @@ with b_stat (en : env) (flv slv : N) (s : stat) {struct s} : list occ * env :=
   | SIf es bs _ =>
     (interleave (map (b_exp en flv) es) (map (fun b => fst (b_block en flv (slv + 1) b)) bs), en)
   | SForNum n vl e1 e2 e3 b _ =>
-    (b_exp en flv e1 ++ b_exp en flv e3 ++ b_exp en flv e2
+    (b_exp en flv e1 ++ b_exp en flv e2 ++ b_exp en flv e3
      ++ fst (b_block ((n, vl) :: en) flv (slv + 1) b), en)
   | SForIn ns ls es b _ =>
     (flat_map (b_exp en flv) es ++ fst (b_block (bind_names ns ls en) flv (slv + 1) b), en)
@@ -282,7 +282,7 @@ with d_stat (s : stat) {struct s} : list decl :=
   | SIf es bs _ =>
     interleave (map d_exp es) (map d_block bs)
   | SForNum n vl e1 e2 e3 b _ =>
-    d_exp e1 ++ d_exp e3 ++ d_exp e2 ++ mkDecl n vl DLoop false None false :: d_block b
+    d_exp e1 ++ d_exp e2 ++ d_exp e3 ++ mkDecl n vl DLoop false None false :: d_block b
   | SForIn ns ls es b _ => flat_map d_exp es ++ plain_decls DLoop ns ls ++ d_block b
   | SAssign _ es _ => flat_map d_exp es
   | SLocal ns ls ats es _ => flat_map d_exp es ++ local_decls ns ls ats es None
